@@ -230,7 +230,7 @@ def run_history(case: dict) -> dict:  # noqa: C901  pylint: disable=too-many-bra
             if not world.problems:
                 for mon in mons:
                     mon.after(op)
-            if 'views' in monitors and not world.problems:
+            if 'views' in monitors and not world.problems and (i % case.get('views_every', 1) == 0 or i == len(ops) - 1):
                 world.check_views(op.get('h', 'main'))
             if 'fresh' in monitors and not world.problems and (i % 4 == 3 or i == len(ops) - 1):
                 from disk_objectstore import Container  # pylint: disable=import-outside-toplevel
